@@ -238,6 +238,26 @@ func c11Bubble(c c11Case) c11Result {
 		})
 		defer kmipclient.SetVerifYield(nil)
 	}
+	callN := 0
+	var cancelCurrent context.CancelFunc // cancels the call in flight (set by call)
+	if c.Dir == "cancel-after-reply" {
+		hits := 0
+		kmipclient.SetVerifYield(func(point string) {
+			if point != "kmipclient.conn.roundtrip.sent" {
+				return
+			}
+			hits++
+			if hits == c.At {
+				// the request is out, the caller is not yet waiting for the answer: let the server answer and the read loop
+				// take the response off the wire (fake time), then abandon the call
+				time.Sleep(time.Millisecond)
+				if cancelCurrent != nil && callN <= 2 { // one of the two calls that precede the follow-up
+					cancelCurrent()
+				}
+			}
+		})
+		defer kmipclient.SetVerifYield(nil)
+	}
 	hookHits := 0
 	if c.Dir == "hook-close" {
 		kmipclient.SetVerifYield(func(point string) {
@@ -364,7 +384,6 @@ func c11Bubble(c c11Case) c11Result {
 		cl = nil
 		return finish()
 	}
-	callN := 0
 	call := func(cc *kmipclient.Client) (ok bool, res *c11Result) {
 		callN++
 		id := fmt.Sprintf("req-%d", callN)
@@ -375,8 +394,11 @@ func c11Bubble(c c11Case) c11Result {
 				res = &r
 			}
 		}()
+		ctx, cancel := context.WithCancel(context.Background())
+		cancelCurrent = cancel
+		defer cancel()
 		got, err, returned := run(func() (string, error) {
-			resp, err := cc.Request(context.Background(), &payloads.ActivateRequestPayload{UniqueIdentifier: id})
+			resp, err := cc.Request(ctx, &payloads.ActivateRequestPayload{UniqueIdentifier: id})
 			if err != nil {
 				return "", err
 			}
@@ -631,6 +653,12 @@ func c11Space() []c11Case {
 				for at := 1; at <= 3; at++ {
 					add("hook-close", at, "")
 				}
+				if reachable {
+					// the k-th exchange is abandoned (context cancelled) when its response has already been read off the wire
+					for at := 1; at <= 3; at++ {
+						add("cancel-after-reply", at, "")
+					}
+				}
 				if reachable && fu == "again" {
 					for at := 1; at <= 2; at++ {
 						add("close-during-call", at, "")
@@ -664,7 +692,7 @@ func c11Space() []c11Case {
 
 func TestC11Faults(t *testing.T) {
 	const name = "TestC11Faults"
-	rec := evid.New("C11", name, "fault enumeration (single caller, synctest bubble): every Read index 1..7 and Write index 1..3 of the first connection x {EOF, closed, reset, short write, reset reported after the data was delivered}, the server closing right after its 1st..3rd reply, a server that keeps accepting and dropping every connection (on accept, after 8 bytes, after the whole request) from the 1st/2nd/3rd connection on, Close() landing while a call is re-dialling (the dial then succeeds), the first connection lost during version negotiation and the negotiation failing on the replacement (Dial fails: nothing it opened may remain), and the server going away exactly when the k-th request is about to be handed to the write loop (yield-point hook), "+
+	rec := evid.New("C11", name, "fault enumeration (single caller, synctest bubble): every Read index 1..7 and Write index 1..3 of the first connection x {EOF, closed, reset, short write, reset reported after the data was delivered}, the server closing right after its 1st..3rd reply, a server that keeps accepting and dropping every connection (on accept, after 8 bytes, after the whole request) from the 1st/2nd/3rd connection on, Close() landing while a call is re-dialling (the dial then succeeds), the first connection lost during version negotiation and the negotiation failing on the replacement (Dial fails: nothing it opened may remain), the server going away exactly when the k-th request is about to be handed to the write loop, and the k-th call abandoned (context cancelled) between send and receive once its response has been read off the wire (yield-point hooks), "+
 		"x {with, without version negotiation} x {server reachable afterwards, not} x follow-up {call again, twice, Close, Close then call, Clone}; two calls precede the follow-up; "+
 		"oracle: every call and Dial/Close/Clone returns (quiescence = hang verdict), response complete and its own or an error, never two consecutive failed calls on a reachable server, <= 4 transmissions per request and a bounded number of connections per call, a closed client serves nothing and dials nothing, census of client connection goroutines 0 at the end; "+
 		"non-trivial = a fault is injected; distinct by case").Attach(t)
